@@ -28,6 +28,18 @@ def run(cx):
         def b9(e, cn):
             cx.add('R-BOUND', 'gm_sm9::sm9_random_u256/param', cn.c(e) == '$range', 'SM9 sampler bound is its `range` argument (checked at every call site)', f9.loc())
         R.sampler_shape(cx, f9, b9)
+    # ---- any other sampler that is actually called by workspace code is held to the same shape (the dormant helpers
+    #      fn_random_u256 / fp_random_u256 compare limb arrays lexicographically: harmless while nobody calls them)
+    checked = {f.name for f in (f2, f9) if f is not None}
+    for name, fn_ in sorted(cx.F.fns.items()):
+        if last(name) in R.SAMPLER_NAMES and name not in checked:
+            callers = [n_ for n_, g_ in cx.F.fns.items() if n_ != name and any(t_['fn']['k'] == 'def' and t_['fn']['name'] == name for _, t_ in g_.calls())]
+            if callers:
+                def bx(e, cn, fn_=fn_):
+                    v = const_int(e)
+                    ok = v is not None and ((fn_.crate == 'gm_sm9' and v in (s9.n - 1, s9.n)) or (fn_.crate == 'gm_sm2' and v in (s2.n - 1, s2.n)))
+                    cx.add('R-BOUND', '%s' % fn_.short, ok, 'sampler %s (called by %s) has bound %s' % (fn_.short, [c_.split('::', 1)[1] for c_ in callers][:3], hex(v) if v is not None else cn.c(e)), fn_.loc())
+                R.sampler_shape(cx, fn_, bx)
     # ---- SM9 call sites pass N-1 (or N)
     nsites = 0
     for name, fn in sorted(cx.F.fns.items()):
@@ -40,7 +52,7 @@ def run(cx):
             v = const_int(a)
             nsites += 1
             cx.add('R-BOUND', 'gm_sm9::%s@bb' % fn.short, v in (s9.n - 1, s9.n), 'sm9_random_u256 is called with bound %s' % ('N-1' if v == s9.n - 1 else 'N' if v == s9.n else hex(v) if v is not None else 'non-constant'), G.where(fn, b))
-    cx.floor('R-BOUND', 'gm_sm9/call-sites', nsites, 8, 'call sites of sm9_random_u256')
+    cx.floor('R-BOUND', 'gm_sm9/call-sites', nsites, 6, 'call sites of sm9_random_u256 (8 on the reviewed tree; two key generators may delegate to their method twins)')
     # ---- the 13 randomised operations
     cnt = 0
     for qual in SM2_SITES + SM9_SITES:
@@ -59,6 +71,10 @@ def run(cx):
                     s = cn.c(a)
                     if s.startswith('rand#') and '(' not in s.replace('(SM9_N_MINUS_ONE)', ''):
                         used = True
+        if not used and not any(last(t_['fn']['name']) in R.SAMPLER_NAMES for _, t_ in fn.calls() if t_['fn']['k'] == 'def'):
+            # the operation delegates to another one of the listed operations (which is checked itself)
+            listed = set(cx.F.find_fns(q)[0].name for q in SM2_SITES + SM9_SITES if len(cx.F.find_fns(q)) == 1)
+            used = any(t_['fn']['k'] == 'def' and t_['fn']['name'] in listed and t_['fn']['name'] != fn.name and b_ in blocks for b_, t_ in fn.calls())
         cx.add('R-SITES', fn.short + '/used', used, 'the drawn scalar itself is the scalar argument of a group/field exponentiation in %s' % fn.short, fn.loc())
         # freshness per retry: if the consumer sits in a loop, the draw is in that loop
         loops = fn.sccs()
